@@ -212,6 +212,10 @@ impl<'a, H: HashChain> InMemoryHssPublicKey<'a, H> {
 
         let public_key = InMemoryLmsPublicKey::new(data.get(index..)?)?;
 
+        if index + public_key.as_slice().len() != data.len() {
+            return None;
+        }
+
         Some(Self {
             public_key,
             level: level as usize,
